@@ -4,11 +4,10 @@
    arguments, flow definitions, campaigns, triggers) followed by
    RapidProContainer.update_global_uuids, as far as they decide whether the command stops.
 
-   The sheet cursor reads rows through two hooks (`peek`: what _parse_block itself looks at
-   in the row at a position; `plain`: the effect of a row handed to _parse_row) and the error
-   type is a parameter: the concrete compiler instantiates them from the workbook
-   (`compile`), the facts instantiate them with a trap at one position to speak about "the
-   state in which that row is reached".
+   The sheet cursor reads a row through one hook (`visit`: parse_next_row, _is_end_of_block and,
+   for a row handed to _parse_row, its effect) and the error type is a parameter: the concrete
+   compiler instantiates them from the workbook (`compile`), the facts instantiate them with
+   a trap at one position to speak about "the state in which that row is reached".
 
    Outside the model (result EOutOfScope or not in the input type): several workbooks
    (one CSV folder only), tags, filter/sort operations (Python eval), sheet-typed template
@@ -20,44 +19,48 @@ From Coq Require Import List NArith Bool Arith.
 From RPFT Require Import Base.Sexp Base.PyStr Base.Result Gen.Tables Io.CliFlow.
 Import ListNotations.
 
-(* ---------------------------------------------------------------- what _parse_block reads *)
-Inductive head :=
-| HEndFor | HEndBlock                          (* block terminators (both modes) *)
-| HSkipFor | HSkipBlock | HSkipPlain           (* omitted content: the row is not templated *)
-| HPlain (inc : bool)
-| HFor (inc : bool) (i : irow)
-| HBlock (inc : bool) (i : irow)
-| HInsert (inc : bool) (i : irow).
-
+(* ---------------------------------------------------------------- reading one row *)
 Inductive btype := BRoot | BFor | BBlock.
 
-(* _is_end_of_block; None = the cursor is exhausted *)
-Definition end_of_block (bt : btype) (h : option head) : result cls bool :=
-  match h with
-  | None => match bt with BRoot => Ok true | _ => crit EUnterminated end
-  | Some HEndFor => match bt with BFor => Ok true | _ => crit EWrongTerminator end
-  | Some HEndBlock => match bt with BBlock => Ok true | _ => crit EWrongTerminator end
-  | Some _ => Ok false
+(* what _parse_block does next, after parse_next_row and _is_end_of_block (and, for a row
+   handed to _parse_row, after that call) *)
+Inductive step :=
+| SEnd (consumed : bool)            (* the block ends here: terminator read, or cursor exhausted at the root *)
+| SSkipFor | SSkipBlock | SSkip     (* omitted content or excluded row: only the row type matters *)
+| SDone (s' : fstate)               (* a row handed to _parse_row *)
+| SFor (i : irow) | SBlock (i : irow) | SInsert (i : irow).
+
+(* _is_end_of_block for a row type, and what an untemplated row amounts to *)
+Definition of_kind (bt : btype) (t : rtype) : result cls step :=
+  match t with
+  | TEndFor => match bt with BFor => Ok (SEnd true) | _ => crit EWrongTerminator end
+  | TEndBlock => match bt with BBlock => Ok (SEnd true) | _ => crit EWrongTerminator end
+  | TBeginFor => Ok SSkipFor
+  | TBeginBlock => Ok SSkipBlock
+  | _ => Ok SSkip
   end.
 
-Definition head_of (omit : bool) (c : ctx) (r : frow) : result cls head :=
-  if omit then
-    Ok (match r_type r with
-        | TEndFor => HEndFor | TEndBlock => HEndBlock
-        | TBeginFor => HSkipFor | TBeginBlock => HSkipBlock
-        | _ => HSkipPlain
-        end)
-  else
-    match instantiate c r with
-    | Err e => Err e
-    | Ok i => Ok (match i_type i with
-                  | TEndFor => HEndFor | TEndBlock => HEndBlock
-                  | TBeginFor => HFor (i_inc i) i
-                  | TBeginBlock => HBlock (i_inc i) i
-                  | TInsert => HInsert (i_inc i) i
-                  | _ => HPlain (i_inc i)
-                  end)
-    end.
+(* parse_next_row (templating unless omitted; the inclusion column first), _is_end_of_block,
+   and _parse_row for plain rows *)
+Definition visit_row (bt : btype) (omit : bool) (s : fstate) (r : option frow) : result cls step :=
+  match r with
+  | None => match bt with BRoot => Ok (SEnd false) | _ => crit EUnterminated end
+  | Some r =>
+    if omit then of_kind bt (r_type r)
+    else
+      match instantiate (f_ctx s) r with
+      | Err e => Err e
+      | Ok None => of_kind bt (r_type r)
+      | Ok (Some i) =>
+        match i_type i with
+        | TEndFor | TEndBlock => of_kind bt (i_type i)
+        | TBeginFor => Ok (SFor i)
+        | TBeginBlock => Ok (SBlock i)
+        | TInsert => Ok (SInsert i)
+        | _ => match step_row s i with Ok s' => Ok (SDone s') | Err e => Err e end
+        end
+      end
+  end.
 
 Definition with_stack (s : fstate) (st : list (list nat)) : fstate :=
   mkF (f_store s) st (f_ids s) (f_ctx s) (f_uu s) (f_recs s).
@@ -84,11 +87,54 @@ Definition is_starting (i : irow) : bool :=
 Definition head_edges (s : fstate) (i : irow) : result cls fstate :=
   if is_starting i then Ok s else parse_noop s (i_edges i) [].
 
+(* begin_for: the loop variables, or the critical *)
+Definition loop_vars (i : irow) : result cls (str * option str) :=
+  match i_vars i with
+  | [] | [] :: _ => crit ENoLoopVar
+  | x :: rest => Ok (x, match rest with
+                        | [] => None
+                        | [] :: _ => None
+                        | iv :: _ => Some iv
+                        end)
+  end.
+
+(* outside the model: a loop variable that shadows a context variable, a loop over nothing *)
+Definition loop_in_scope (s : fstate) (x : str) (idx : option str) (i : irow) : bool :=
+  negb (chas (f_ctx s) x
+        || match idx with Some iv => chas (f_ctx s) iv | None => false end
+        || match i_list i with [] => true | _ => false end).
+
+(* after the loop: pop the group, register it, remove the variables from the context *)
+Definition close_loop (s : fstate) (i : irow) (x : str) (idx : option str) : fstate :=
+  let s4 := close_block s (i_id i) in
+  let c1 := cdel (f_ctx s4) x in
+  with_ctx s4 (match idx with Some iv => cdel c1 iv | None => c1 end).
+
+(* _parse_insert_as_block_row once the template has been parsed as a block into [sub] *)
+Definition attach_block (s sub : fstate) (i : irow) : result cls fstate :=
+  match f_stack sub with
+  | [top] =>
+    let b := length (f_store sub) in
+    let host1 := mkF (f_store sub ++ [GBlock (rev top)]) (f_stack s) (f_ids s) (f_ctx s) (f_uu s) (f_recs sub) in
+    match foldM (fun st e =>
+                   match entry_ok (fuel_of (f_store st)) (f_store st) b with
+                   | Err x => Err x
+                   | Ok _ => add_row_edge st e true
+                   end) (i_edges i) host1 with
+    | Err e => Err e
+    | Ok host2 =>
+      let stack := match f_stack host2 with [] => [[b]] | t :: r => (b :: t) :: r end in
+      let ids := match i_id i with [] => f_ids host2 | id => ids_set (f_ids host2) id b end in
+      Ok (mkF (f_store host2) stack ids (f_ctx host2) (f_uu host2) (f_recs host2))
+    end
+  | _ => Err EOutOfScope
+  end.
+
 Section Gen.
 Variable E : Type.
 Variable inj : cls -> E.
-Variable peek : str -> nat -> bool -> ctx -> result E (option head).
-Variable plain : str -> nat -> fstate -> result E fstate.
+(* reading the row at (sheet, position) in a block of type bt, omitted or not, in state s *)
+Variable visit : str -> nat -> btype -> bool -> fstate -> result E step.
 (* context of a template inserted as a block: get_node_group's checks and _parse_flow's *)
 Variable prep : str -> str -> str -> list str -> result cls ctx.
 
@@ -103,10 +149,7 @@ Fixpoint iterate (body : fstate -> result E (nat * fstate)) (x : str) (idx : opt
   | e :: more =>
     let c1 := cset (f_ctx (snd acc)) x e in
     let c2 := match idx with Some iv => cset c1 iv (dec_of_nat n) | None => c1 end in
-    match body (with_ctx (snd acc) c2) with
-    | Err err => Err err
-    | Ok acc' => iterate body x idx more (S n) acc'
-    end
+    bind (body (with_ctx (snd acc) c2)) (fun acc' => iterate body x idx more (S n) acc')
   end.
 
 (* _parse_block.  Each call consumes one unit of fuel; result: cursor position and state. *)
@@ -115,108 +158,38 @@ Fixpoint parse_block (fuel : nat) (sheet : str) (pos : nat) (s : fstate) (bt : b
   match fuel with
   | O => Err (inj EOutOfFuel)
   | S f =>
-    match peek sheet pos omit (f_ctx s) with
-    | Err e => Err e
-    | Ok h =>
-      match end_of_block bt h with
-      | Err e => Err (inj e)
-      | Ok true => Ok (match h with None => pos | Some _ => S pos end, s)
-      | Ok false =>
-        match h with
-        | None | Some HEndFor | Some HEndBlock => Err (inj EOutOfScope)
-        | Some HSkipFor | Some (HFor false _) =>
-          match parse_block f sheet (S pos) s BFor true with
-          | Err e => Err e
-          | Ok (p2, s2) => parse_block f sheet p2 s2 bt omit
-          end
-        | Some HSkipBlock | Some (HBlock false _) =>
-          match parse_block f sheet (S pos) s BBlock true with
-          | Err e => Err e
-          | Ok (p2, s2) => parse_block f sheet p2 s2 bt omit
-          end
-        | Some HSkipPlain | Some (HPlain false) | Some (HInsert false _) =>
-          parse_block f sheet (S pos) s bt omit
-        | Some (HPlain true) =>
-          match plain sheet pos s with
-          | Err e => Err e
-          | Ok s1 => parse_block f sheet (S pos) s1 bt omit
-          end
-        | Some (HFor true i) =>
-          match i_vars i with
-          | [] | [] :: _ => lift (crit ENoLoopVar)
-          | x :: rest =>
-            let idx := match rest with
-                       | [] => None
-                       | [] :: _ => None
-                       | iv :: _ => Some iv
-                       end in
-            if chas (f_ctx s) x
-               || match idx with Some iv => chas (f_ctx s) iv | None => false end
-               || match i_list i with [] => true | _ => false end
-            then Err (inj EOutOfScope)
-            else
-              match lift (head_edges (push_block s) i) with
-              | Err e => Err e
-              | Ok s2 =>
-                match iterate (fun st => parse_block f sheet (S pos) st BFor false) x idx (i_list i) 0 (S pos, s2) with
-                | Err e => Err e
-                | Ok (p3, s3) =>
-                  let s4 := close_block s3 (i_id i) in
-                  let c1 := cdel (f_ctx s4) x in
-                  let c2 := match idx with Some iv => cdel c1 iv | None => c1 end in
-                  parse_block f sheet p3 (with_ctx s4 c2) bt omit
-                end
-              end
-          end
-        | Some (HBlock true i) =>
-          match lift (head_edges (push_block s) i) with
-          | Err e => Err e
-          | Ok s2 =>
-            match parse_block f sheet (S pos) s2 BBlock false with
-            | Err e => Err e
-            | Ok (p3, s3) => parse_block f sheet p3 (close_block s3 (i_id i)) bt omit
-            end
-          end
-        | Some (HInsert true i) =>
-          match lift (prep (i_main i) (i_dsheet i) (i_drow i) (i_targs i)) with
-          | Err e => Err e
-          | Ok c' =>
-            (* a FlowParser of its own on the template, with a container of its own *)
-            match parse_block f (i_main i) 0 (mkF (f_store s) [[]] [] c' uu0 (f_recs s)) BRoot false with
-            | Err e => Err e
-            | Ok (_, sub) =>
-              match f_stack sub with
-              | [top] =>
-                let b := length (f_store sub) in
-                let host1 := mkF (f_store sub ++ [GBlock (rev top)]) (f_stack s) (f_ids s) (f_ctx s) (f_uu s) (f_recs sub) in
-                match lift (foldM (fun st e =>
-                                     match entry_ok (fuel_of (f_store st)) (f_store st) b with
-                                     | Err x => Err x
-                                     | Ok _ => add_row_edge st e true
-                                     end) (i_edges i) host1) with
-                | Err e => Err e
-                | Ok host2 =>
-                  let stack := match f_stack host2 with [] => [[b]] | t :: r => (b :: t) :: r end in
-                  let ids := match i_id i with [] => f_ids host2 | id => ids_set (f_ids host2) id b end in
-                  parse_block f sheet (S pos)
-                              (mkF (f_store host2) stack ids (f_ctx host2) (f_uu host2) (f_recs host2)) bt omit
-                end
-              | _ => Err (inj EOutOfScope)
-              end
-            end
-          end
-        end
-      end
-    end
+    bind (visit sheet pos bt omit s) (fun st =>
+    match st with
+    | SEnd consumed => Ok (if consumed then S pos else pos, s)
+    | SSkipFor =>
+      bind (parse_block f sheet (S pos) s BFor true) (fun ps => parse_block f sheet (fst ps) (snd ps) bt omit)
+    | SSkipBlock =>
+      bind (parse_block f sheet (S pos) s BBlock true) (fun ps => parse_block f sheet (fst ps) (snd ps) bt omit)
+    | SSkip => parse_block f sheet (S pos) s bt omit
+    | SDone s1 => parse_block f sheet (S pos) s1 bt omit
+    | SFor i =>
+      bind (lift (loop_vars i)) (fun xi =>
+      if negb (loop_in_scope s (fst xi) (snd xi) i) then Err (inj EOutOfScope) else
+      bind (lift (head_edges (push_block s) i)) (fun s2 =>
+      bind (iterate (fun st' => parse_block f sheet (S pos) st' BFor false) (fst xi) (snd xi) (i_list i) 0 (S pos, s2))
+           (fun ps => parse_block f sheet (fst ps) (close_loop (snd ps) i (fst xi) (snd xi)) bt omit)))
+    | SBlock i =>
+      bind (lift (head_edges (push_block s) i)) (fun s2 =>
+      bind (parse_block f sheet (S pos) s2 BBlock false)
+           (fun ps => parse_block f sheet (fst ps) (close_block (snd ps) (i_id i)) bt omit))
+    | SInsert i =>
+      bind (lift (prep (i_main i) (i_dsheet i) (i_drow i) (i_targs i))) (fun c' =>
+      (* a FlowParser of its own on the template, with a container of its own *)
+      bind (parse_block f (i_main i) 0 (mkF (f_store s) [[]] [] c' uu0 (f_recs s)) BRoot false) (fun sub =>
+      bind (lift (attach_block s (snd sub) i)) (fun s3 => parse_block f sheet (S pos) s3 bt omit)))
+    end)
   end.
 
 (* FlowParser.parse(add_to_container=False): what remains is the container's uuid dict and
    what the flow's nodes will record when the container is rendered *)
 Definition run_flow (fuel : nat) (sheet : str) (c : ctx) (uu : uuids) : result E (uuids * list rec) :=
-  match parse_block fuel sheet 0 (mkF [] [[]] [] c uu []) BRoot false with
-  | Err e => Err e
-  | Ok (_, s) => Ok (f_uu s, f_recs s)
-  end.
+  bind (parse_block fuel sheet 0 (mkF [] [[]] [] c uu []) BRoot false)
+       (fun ps => Ok (f_uu (snd ps), f_recs (snd ps))).
 
 End Gen.
 
@@ -511,8 +484,7 @@ Record cstate := mkCS {
 Section Pipeline.
 Variable E : Type.
 Variable inj : cls -> E.
-Variable peek : str -> nat -> bool -> ctx -> result E (option head).
-Variable plain : str -> nat -> fstate -> result E fstate.
+Variable visit : str -> nat -> btype -> bool -> fstate -> result E step.
 Variable fuel : nat.
 
 Definition liftE {T} (r : result cls T) : result E T := lift E inj r.
@@ -522,7 +494,7 @@ Definition one_flow (st : istate) (d : fdef) (drow : str) (cs : cstate) : result
   match liftE (flow_ctx st (fd_sheet d) (fd_dsheet d) drow (fd_targs d)) with
   | Err e => Err e
   | Ok c =>
-    match run_flow E inj peek plain (insert_ctx st) fuel (fd_sheet d) c (cs_uu cs) with
+    match run_flow E inj visit (insert_ctx st) fuel (fd_sheet d) c (cs_uu cs) with
     | Err e => Err e
     | Ok (uu, recs) =>
       Ok (mkCS uu (aset (cs_flows cs) (flow_name d drow) (cs_next cs, recs)) (S (cs_next cs)))
@@ -593,13 +565,12 @@ Definition finish (st : istate) (cs : cstate) : result cls doc :=
 
 (* the whole compilation over hooks; [wbx] is the erased workbook *)
 Definition compile_core (E : Type) (inj : cls -> E)
-           (peek : str -> nat -> bool -> ctx -> result E (option head))
-           (plain : str -> nat -> fstate -> result E fstate)
+           (visit : str -> nat -> btype -> bool -> fstate -> result E step)
            (fuel : nat) (wbx : workbook) (dm : option (list str)) : result E doc :=
   match lift E inj (index_phase fuel wbx dm) with
   | Err e => Err e
   | Ok st =>
-    match flows_phase E inj peek plain fuel st with
+    match flows_phase E inj visit fuel st with
     | Err e => Err e
     | Ok cs => lift E inj (finish st cs)
     end
@@ -609,17 +580,9 @@ Definition compile_core (E : Type) (inj : cls -> E)
 Definition rows_of (wb : workbook) (sheet : str) : list frow :=
   match wb_get wb sheet with Some (SFlow rows) => rows | _ => [] end.
 
-Definition peek_of (wb : workbook) (sheet : str) (pos : nat) (omit : bool) (c : ctx) : result cls (option head) :=
-  match nth_error (rows_of wb sheet) pos with
-  | None => Ok None
-  | Some r => match head_of omit c r with Ok h => Ok (Some h) | Err e => Err e end
-  end.
-
-Definition plain_of (wb : workbook) (sheet : str) (pos : nat) (s : fstate) : result cls fstate :=
-  match nth_error (rows_of wb sheet) pos with
-  | None => Err EOutOfScope
-  | Some r => match instantiate (f_ctx s) r with Ok i => step_row s i | Err e => Err e end
-  end.
+Definition visit_of (wb : workbook) (sheet : str) (pos : nat) (bt : btype) (omit : bool) (s : fstate)
+  : result cls step :=
+  visit_row bt omit s (nth_error (rows_of wb sheet) pos).
 
 Definition compile (fuel : nat) (wb : workbook) (dm : option (list str)) : result cls doc :=
-  compile_core cls (fun c => c) (peek_of wb) (plain_of wb) fuel (erase wb) dm.
+  compile_core cls (fun c => c) (visit_of wb) fuel (erase wb) dm.
